@@ -644,7 +644,10 @@ def oracle(case, k, old, new, res, trace):
         a, o, n = after.get(p, "ABSENT"), old.get(p, "ABSENT"), new.get(p, "ABSENT")
         if a == o or a == n:
             continue
-        # complete forms the operation itself gave the record on the way (a second rewrite, a removal)
+        # complete forms the operation itself gave the record on the way (a second rewrite, a removal): still a
+        # violation - "old or new" is meant literally (D20, fixed: Eups.declare moved a tag by unassign-then-assign,
+        # which left the chain record without the flavor's entry, or absent, between the two rewrites) - but named
+        # apart from truncated / garbled records
         inter = [x for kind, rel, x in trace if kind == "rename" and rel == p]
         if any(kind in ("unlink", "rmdir") and rel == p for kind, rel, _ in trace):
             inter.append("ABSENT")
@@ -659,11 +662,6 @@ def oracle(case, k, old, new, res, trace):
         return (kind, "%s is neither in its old nor in its new form after a crash before effect %d: %r" %
                 (p, k, a if a == "ABSENT" or a is None else a[:6]))
     return None
-
-
-def m_tag_move(f):
-    """known finding D20: a tag move is unassign-then-assign, two complete record writes"""
-    return f["kind"] == "tag-move-intermediate"
 
 
 def view_frame(case, old_view, new_view, res):
@@ -803,7 +801,6 @@ def explore(ctx, cases, flush=True):
 
 
 def run(ctx):
-    ctx.matchers["c08.tag_move"] = m_tag_move
     ctx.rule = ("random histories of 2-6 mutating operations (declare with/without tag, tag, untag, undeclare) over 2 "
                 "products x 2 versions x 2 flavors sharing version files; the last operation is killed before every "
                 "one of its file-system effects (open/write/close/rename/unlink/mkdir/rmdir under ups_db); a case is "
@@ -859,7 +856,6 @@ def run(ctx):
 
 
 def replay(ctx, path):
-    ctx.matchers["c08.tag_move"] = m_tag_move
     obj = json.load(open(path))
     i = obj["input"]
     c = {"history": i["history"], "op": i["op"], "listdir": i.get("listdir")}
